@@ -35,6 +35,9 @@ def main(tier_):
     stats, samples = collections.Counter(), []
     # ---- (M) design invariants over all spellings
     design = run_tlc("MC_RootOps.tla", "MC_C14_%s.cfg" % tier_, workers=8, timeout=1800)
+    # ---- (M) mkdir_all with an attacker (Mkdir2.tla): the known finding F-C03-mkdir-all-below-new-dir is a property of the
+    #      design (TLC: MutationsInside violated after one attacker rename), not of one backend
+    mk2 = run_tlc("MC_Mkdir2.tla", "MC_Mkdir2_attack.cfg", workers=8, timeout=600)
     # ---- static: the spellings whose final name is a dot name or that go through escaping links, traced
     gen = run_tlc("MC_RootOps.tla", "MC_C14_%s_gen.cfg" % tier_, workers=8, timeout=3000)
     trees, gcases = {}, []
@@ -121,7 +124,7 @@ def main(tier_):
     cov = dict(states=max(gen["distinct"], 1) + stats["trace_states"], transitions=max(gen["states"], 1) + stats["events"], traces_validated_against_impl=stats["traces"], samples=samples,
                evaluations=len(cases), distinct_nontrivial=stats["attack_fired"] + len(static_cases),
                rule="case = static dot-name/escaping spelling (TLC-generated) or (race tree, mutating call, backend, attacker action(s), boundary); non-trivial = attacker mutation took effect, or the spelling ends in '.'/'..' / goes through an escaping link",
-               exhaustive=False, design_invariant_violated=design["violated"], static_cases=len(static_cases), sweep_space=stats["sweep_space"], sweep_executed=len(sweep),
+               exhaustive=False, design_invariant_violated=design["violated"], mkdir_all_with_attacker_model=dict(violated=mk2["violated"], states=mk2["distinct"], note="expected: MutationsInside (known finding F-C03-mkdir-all-below-new-dir at design level)"), static_cases=len(static_cases), sweep_space=stats["sweep_space"], sweep_executed=len(sweep),
                attack_fired=stats["attack_fired"], kernel_model_mismatches=stats["kmm"], kmm_samples=stats.get("kmm_samples", [])[:3],
                outcomes={k: n for k, n in stats.items() if k.startswith("outcome_")}, abnormal=stats["abnormal"], build_s=round(build_s, 1))
     write_evidence("C03", tier_, "model_checking", cov, ASSUME, wall, len(v.violations))
